@@ -411,9 +411,16 @@ def parse_coq(text, dual=False):
 # --------------------------------------------------------------------------------------
 # comparison
 
+# set by check.py for cases flagged "pure_rel": tolerance relative to the magnitudes compared, without the floor
+# of 1 (programs on tiny values, where an absolute tolerance would accept anything)
+PURE_REL = False
+
+
 def close(x, y, rtol):
     if math.isnan(x) or math.isnan(y):
         return math.isnan(x) and math.isnan(y)
+    if PURE_REL and not (math.isinf(x) or math.isinf(y)):
+        return abs(x - y) <= rtol * max(abs(x), abs(y)) + 1e-37
     if math.isinf(x) or math.isinf(y):
         # a binary32 overflow where binary64 is merely huge is "within single precision"
         return x == y or (rtol > 1e-5 and (abs(x) > 3e38 or abs(y) > 3e38))
